@@ -97,6 +97,18 @@ for out in ("cacheable", "uncacheable"):
     add(SL, "silent_origin_" + out, single, slow)
 json.dump(SL, open(os.path.join(here, "slow_directed.json"), "w"), indent=0)
 
+# the origin compresses its answers itself; other responses cross the proxy between the fetch and the hits of a key: what is served
+# on a hit are the bytes of the version its headers name (with and without a store; the delivered bodies are decoded and read)
+BD = []
+def bfetch(r, k, m="GET", out="cacheable", d="d1"):
+    return [{"a": "Start", "p": r, "k": k, "d": d, "m": m}] + R(r, 3) + [{"a": "FetchEndIf", "p": r, "out": out, "ttl": 5}] + R(r, 8)
+for store in (False, True):
+    cfgb = {"disps": [{"name": "d1", "limit": 0, "hfp": 1, "store": store}], "keys": {"k1": 1, "k2": 1}, "bodies": "gzip"}
+    add(BD, "gzip_origin_other_traffic_between" + ("_store" if store else ""), cfgb,
+        bfetch("r1", "k1") + bfetch("r2", "k2", "POST", "uncacheable") + bfetch("r3", "k2") + bfetch("r2", "k1") + bfetch("r3", "k2")
+        + bfetch("r1", "k1", "POST", "uncacheable") + bfetch("r2", "k1") + bfetch("r3", "k2"))
+json.dump(BD, open(os.path.join(here, "body_directed.json"), "w"), indent=0)
+
 # the known finding KF-C18-evicted-inflight
 K = [{"a": "Start", "p": "r1", "k": "k1", "d": "d1", "m": "GET"}, {"a": "Lookup", "p": "r1"}, {"a": "GetStep", "p": "r1", "res": "notfound"}, {"a": "UpStart", "p": "r1"},
      {"a": "Start", "p": "r2", "k": "k2", "d": "d1", "m": "GET"}, {"a": "Lookup", "p": "r2"}] + purge("p1", "k1", "d1") + \
